@@ -375,7 +375,10 @@ fn clause_for(spec: &ClauseSpec, uids: &[u16]) -> DynClause {
         M::S1 => ref1::clause(SkipMock::s1, spec, uids),
         M::S2 => ref1::clause(SkipMock::s2, spec, uids),
         M::D0 => dbg1::clause(DbgTMock::d0, spec, uids),
-        other @ (M::LendA | M::LendB | M::LendMut | M::Lent | M::LendClone | M::LendVia | M::OwnSingle | M::OwnMulti
+        M::Vu => val1::clause(ByValUMock::vu, spec, uids),
+        M::RcU => rc1::clause(ByRcUMock::rcu, spec, uids),
+        M::Show => panic!("FmtT::show is only used unmentioned"),
+        other @ (M::LendA | M::LendB | M::LendMut | M::Lent | M::LendClone | M::LendVia | M::LendViaMut | M::OwnSingle | M::OwnMulti
         | M::OwnOpt | M::OwnRes | M::OwnTup | M::OwnTup1 | M::OwnVec | M::OwnTup3) => {
             panic!("{other:?} is configured through Config::specials")
         }
